@@ -333,6 +333,11 @@ func vScenarioC01(rc *runCtx) {
 // vCheckFidelity is the C01 oracle: liveness (both sides report success, fault-free case only)
 // and safety (whatever a side reported as saved exists with exactly the source's content).
 func vCheckFidelity(rc *runCtx, x *xferWorld, rep *xferReport, before vSnap, requireSuccess bool) {
+	vCheckFidelityFrom(rc, x, rep, before, requireSuccess, x.termMark)
+}
+
+// vCheckFidelityFrom: progress lines are judged from terminal offset progressFrom on.
+func vCheckFidelityFrom(rc *runCtx, x *xferWorld, rep *xferReport, before vSnap, requireSuccess bool, progressFrom int) {
 	o := x.o
 	rc.res.Scenario["client_ok"] = rep.clientOK
 	rc.res.Scenario["server_ok"] = rep.serverOK
@@ -348,6 +353,12 @@ func vCheckFidelity(rc *runCtx, x *xferWorld, rep *xferReport, before vSnap, req
 				rc.violate("lone-pad", "C01:lone-pad-chunk", "a data chunk consisting of a lone '=' was sent although nobody paused: the receiver takes it for the keep-alive marker and drops it")
 				return
 			}
+		}
+	}
+	if x.filter != nil {
+		if msg := x.progressOverflow(progressFrom, x.o.cols); msg != "" {
+			rc.violate("progress", "C20:too-wide:system", "%s", msg)
+			return
 		}
 	}
 	hung := !rep.serverExited || (x.filter != nil && x.filter.IsTransferringFiles())
